@@ -7,6 +7,7 @@ mod gen;
 mod isolate;
 mod mutate;
 mod props;
+mod sched;
 mod terms;
 mod universe;
 
@@ -45,6 +46,10 @@ fn main() {
             }
             println!("{line}");
         }
+        return;
+    }
+    if id == "__c16probe" {
+        props::c16::probe();
         return;
     }
     if id == "__worker" {
